@@ -42,6 +42,16 @@ void h_callhost3(void) { ND(U32, a); ND(U64, b); ND(F32, c); ND(U32, base); U64 
     OBL(g_h_a0 == a && g_h_a1 == b && g_h_a2bits == vh_f32bits(c), "import call: arguments arrive in declaration order, bit-exact");
     OBL(r == g_h_ret, "import call: the result is delivered to the caller's operand stack");
     CANARY("callhost3"); }
+void h_callhost3dup(void) { ND(U32, a); ND(U64, b); ND(F32, c); ND(U32, base); U64 r; ASSUME(base <= 2); setup(base);
+    r = c04def_callhost3dup(&inst, a, b, c);
+    OBL(g_h3_calls == 1 && g_h0_calls == 0 && g_hv_calls == 0 && g_h_a0 == a && g_h_a1 == b && g_h_a2bits == vh_f32bits(c) && r == g_h_ret,
+        "import call through a SECOND import of the same host function: it has its own function index, all later indices are unaffected");
+    CANARY("callhost3dup"); }
+void h_reexport(void) { ND(U32, a); ND(U64, b); ND(F32, c); ND(U32, base); U64 r; ASSUME(base <= 2); setup(base);
+    r = c04def_rehost3(&inst, a, b, c);
+    OBL(g_h3_calls == 1 && g_h_inst == (void*)&inst && g_h_a0 == a && g_h_a1 == b && g_h_a2bits == vh_f32bits(c) && r == g_h_ret,
+        "re-exported import: the export wrapper has the import's own signature and passes instance, arguments and result through unchanged");
+    CANARY("reexport"); }
 void h_callhost0twice(void) { ND(U32, base); U32 r; ASSUME(base <= 2); setup(base);
     r = c04def_callhost0twice(&inst);
     OBL(g_h0_calls == 2 && r == g_h0_ret[0] - g_h0_ret[1], "import call: two calls in sequence, results kept in evaluation order");
